@@ -32,6 +32,8 @@ def verus_version():
 def run(unit_path, rlimit=60, threads=8, timeout=1200):
     cmd = ['verus', os.path.basename(unit_path), '--output-json', '--time', '--multiple-errors', '200',
            '--triggers-mode', 'silent', '--error-format=json', '--rlimit', str(rlimit), '--num-threads', str(threads)]
+    if os.environ.get('VERIF_ONLY_FN'):
+        cmd += ['--verify-root', '--verify-function', os.environ['VERIF_ONLY_FN']]
     t0 = time.time()
     try:
         p = subprocess.run(cmd, cwd=os.path.dirname(unit_path), capture_output=True, text=True, timeout=timeout)
